@@ -54,7 +54,7 @@ func (w *World) pathEntry(g *Grammar) (entry *ssa.Function, exprEntry *ssa.Funct
 		if !g.isNodeParser(f) || seen[f] {
 			continue
 		}
-		if calleesOf(f)[g.EntryLevel] {
+		if calleesOf(f)[g.EntryLevel] || passesAsValue(f, g.EntryLevel) {
 			exprEntry = f
 		}
 	}
@@ -132,7 +132,7 @@ func (w *World) runPath(g *Grammar, entry, step, expr *ssa.Function, stream []to
 		return false, AVal{}
 	}
 	ai := w.newInterp(hooks)
-	ai.MaxVisits = 3
+	ai.MaxVisits = 5
 	ai.MaxDepth = 8
 	st := w.initState()
 	scObj = st.externObj(g.ScannerT, nil)
@@ -471,4 +471,29 @@ func (w *World) dslashExpansion(r *Report, g *Grammar, all int64) {
 			r.ok("G-ABBREV", key, pos, "`/` "+pn+" => the next step directly")
 		}
 	}
+}
+
+// passesAsValue: f makes a method value (or function value) of target and hands
+// it to a call (`p.nested(p.parseOrExpr, n)`).
+func passesAsValue(f, target *ssa.Function) bool {
+	found := false
+	eachInstr(f, false, func(_ *ssa.Function, in ssa.Instruction) {
+		c, ok := in.(ssa.CallInstruction)
+		if !ok {
+			return
+		}
+		for _, a := range c.Common().Args {
+			switch x := a.(type) {
+			case *ssa.MakeClosure:
+				if bf, ok := x.Fn.(*ssa.Function); ok && bf.Object() != nil && target.Object() != nil && bf.Object() == target.Object() {
+					found = true
+				}
+			case *ssa.Function:
+				if x == target {
+					found = true
+				}
+			}
+		}
+	})
+	return found
 }
